@@ -79,6 +79,13 @@ fn pb_get_piece_kind() {
 fn pb_default_wf() {
     let pb = PieceBitboards::default();
     assert!(pb_wf(&pb));
+    // the start position satisfies the generators' invariants: kings and rooks at home, no pawn on a last rank
+    assert!(at(&pb, Square { rank: 0, file: 4 }) == Some(Kind::King(Color::White)) && at(&pb, Square { rank: 7, file: 4 }) == Some(Kind::King(Color::Black)));
+    assert!(at(&pb, Square { rank: 0, file: 0 }) == Some(Kind::Rook(Color::White)) && at(&pb, Square { rank: 0, file: 7 }) == Some(Kind::Rook(Color::White)));
+    assert!(at(&pb, Square { rank: 7, file: 0 }) == Some(Kind::Rook(Color::Black)) && at(&pb, Square { rank: 7, file: 7 }) == Some(Kind::Rook(Color::Black)));
+    let f: u8 = kani::any();
+    kani::assume(f < 8);
+    assert!(at(&pb, Square { rank: 0, file: f }) != Some(Kind::Pawn(Color::Black)) && at(&pb, Square { rank: 7, file: f }) != Some(Kind::Pawn(Color::White)));
     kani::cover!(true, "harness end reachable");
 }
 
